@@ -368,12 +368,12 @@ Proof.
 Qed.
 
 Theorem regex_fullmatch_parsed pattern icase dotall r rest s :
-  parse_regex dotall pattern = POk r rest -> negb (is_ascii pattern) && icase = false ->
+  parse_regex dotall pattern = POk r rest -> icase && (negb (is_ascii pattern) || negb (is_ascii s)) = false ->
   regex_fullmatch pattern icase dotall s = Some (Some (regex_fullmatch_ast icase r s)).
 Proof. intros Hp Hf. unfold regex_fullmatch. rewrite Hf, Hp. reflexivity. Qed.
 
 Theorem regex_fullmatch_spec pattern icase dotall r rest s :
-  parse_regex dotall pattern = POk r rest -> negb (is_ascii pattern) && icase = false ->
+  parse_regex dotall pattern = POk r rest -> icase && (negb (is_ascii pattern) || negb (is_ascii s)) = false ->
   (regex_fullmatch pattern icase dotall s = Some (Some true) <-> matches icase r s) /\
   (regex_fullmatch pattern icase dotall s = Some (Some false) <-> ~ matches icase r s).
 Proof.
@@ -399,6 +399,14 @@ Theorem regex_unparsed pattern icase dotall s :
   (forall r rest, parse_regex dotall pattern <> POk r rest) ->
   regex_fullmatch pattern icase dotall s = None \/ regex_fullmatch pattern icase dotall s = Some None.
 Proof.
-  intros Hp. unfold regex_fullmatch. destruct (negb (is_ascii pattern) && icase); [left; reflexivity|].
+  intros Hp. unfold regex_fullmatch. destruct (icase && (negb (is_ascii pattern) || negb (is_ascii s))); [left; reflexivity|].
   destruct (parse_regex dotall pattern) as [r rest| |]; [contradiction (Hp r rest); reflexivity|right; reflexivity|left; reflexivity].
+Qed.
+
+(* under IGNORECASE the model gives no verdict on non-ASCII text *)
+Theorem regex_fullmatch_icase_guard pattern dotall s :
+  is_ascii pattern && is_ascii s = false -> regex_fullmatch pattern true dotall s = None.
+Proof.
+  intros H. unfold regex_fullmatch. cbn [andb].
+  destruct (is_ascii pattern); destruct (is_ascii s); try discriminate H; reflexivity.
 Qed.
